@@ -20,6 +20,7 @@ import (
 	"fmt"
 	"math/big"
 	"os"
+	"path/filepath"
 	"runtime"
 	"runtime/pprof"
 	"sort"
@@ -29,7 +30,9 @@ import (
 	"github.com/LemoFoundationLtd/lemochain-core/chain/account"
 	"github.com/LemoFoundationLtd/lemochain-core/chain/types"
 	"github.com/LemoFoundationLtd/lemochain-core/common"
+	"github.com/LemoFoundationLtd/lemochain-core/common/rlp"
 	"github.com/LemoFoundationLtd/lemochain-core/store"
+	"github.com/LemoFoundationLtd/lemochain-core/store/leveldb"
 )
 
 func init() { subs["c10"] = c10 }
@@ -258,6 +261,36 @@ func (s *c10Store) setStable(id int) string {
 	})
 }
 
+// stableCrash: SetStableBlock(id) for a child of the stable block, with the process dying inside blockCommit
+// between leveldb.SetCurrentBlock and Context.Flush, and a restart.  The crash image is what such a process
+// leaves on disk: everything the complete run wrote (the WAL is drained, the stable pointer moved) except
+// context.data, which is still the file of before the call (it is replaced atomically, by rename).
+func (s *c10Store) stableCrash(id int) string {
+	ctxPath := filepath.Join(s.dir, "context.data")
+	old, err := os.ReadFile(ctxPath)
+	if err != nil {
+		return "err read context.data"
+	}
+	if r := s.setStable(id); strings.HasPrefix(r, "err") || r == "panic" {
+		return r
+	}
+	s.drain()
+	s.db.Close()
+	if err := os.WriteFile(ctxPath, old, 0644); err != nil {
+		return "err write context.data"
+	}
+	return Safe(func() string {
+		s.db = store.NewChainDataBase(s.dir)
+		cs, err := s.db.Context.GetCandidates()
+		if err != nil {
+			return "err " + err.Error()
+		}
+		l := c10FromStore(cs)
+		sort.Slice(l, func(i, j int) bool { return l[i].addr < l[j].addr })
+		return "persist=" + c10ShowCands(l) + " " + s.showBlock(id)
+	})
+}
+
 func (s *c10Store) reopen(drain bool) {
 	if drain {
 		s.drain()
@@ -295,11 +328,12 @@ func (s *c10Store) registeredInView(id int, universe int) (reg []c10CV, flags ma
 }
 
 type c10Live struct {
-	id      int
-	pid     int
-	height  int
-	view    map[int]c10Acct // shadow of the account view
-	tainted bool            // an ancestor (or the block itself) already failed the oracle
+	id                 int
+	pid                int
+	height             int
+	view               map[int]c10Acct // shadow of the account view
+	tainted            bool            // an ancestor (or the block itself) already failed the oracle
+	changesWithProfile []int           // addresses this block hands to the persisted candidate list when committed
 }
 
 func c10CopyView(v map[int]c10Acct) map[int]c10Acct {
@@ -388,6 +422,9 @@ func c10(c *Ctx) {
 
 }
 
+// set by the engine part: a register tx with isCandidate="yes" was packed and left that string in the account
+var c10OddFlagReachable = false
+
 // at most c10MaxPerSig reports per signature, so that every defect class stays visible
 var c10SigCount = map[string]int{}
 
@@ -399,10 +436,39 @@ func c10Case(c *Ctx, caseNo int) {
 		max = 2 + c.Rnd.Intn(2)
 	}
 	universe := max + 1 + c.Rnd.Intn(4)
-	malformed := c.Rnd.Intn(12) == 0
 	voteVals := []int64{0, 10, 10, 20, 20, 20, 30}
+	nOpsExtra := 0
+	switch x := c.Rnd.Intn(24); {
+	case x < 3: // larger lists
+		max = 5 + c.Rnd.Intn(4)
+		universe = max + 1 + c.Rnd.Intn(8)
+		voteVals = []int64{0, 10, 10, 20, 20, 30, 30, 40, 50}
+		nOpsExtra = 8
+	case x == 3 && c.Tier == "thorough": // the production size
+		max = 20
+		universe = 22 + c.Rnd.Intn(9)
+		voteVals = []int64{0, 10, 20, 20, 30, 30, 40, 50, 60, 70}
+		nOpsExtra = 16
+	}
+	malformed := c.Rnd.Intn(12) == 0
+	// isCandidate strings other than "true"/"false": in the oracle stream only if the engine scenario has
+	// shown that a register tx really puts one into an account (c10OddFlagReachable), else correspondence only
+	oddCase := c.Rnd.Intn(6) == 0
+	if oddCase && !c10OddFlagReachable {
+		malformed = true
+	}
+	if oddCase {
+		c.Count("case:odd-candidate-flags")
+	}
+	crashed := false
 	store.VerifSetMaxCandidateCount(max)
-	c.Count(fmt.Sprintf("case:max=%d", max))
+	if max <= 4 {
+		c.Count(fmt.Sprintf("case:max=%d", max))
+	} else if max < 20 {
+		c.Count("case:max=5..8")
+	} else {
+		c.Count("case:max=20(production)")
+	}
 	if malformed {
 		c.Count("case:malformed-stream")
 	} else {
@@ -458,7 +524,7 @@ func c10Case(c *Ctx, caseNo int) {
 		}
 	}
 
-	nOps := 6 + c.Rnd.Intn(14)
+	nOps := 6 + c.Rnd.Intn(14) + nOpsExtra
 	for k := 0; k < nOps; k++ {
 		ids := liveIDs()
 		r := c.Rnd.Intn(100)
@@ -495,7 +561,11 @@ func c10Case(c *Ctx, caseNo int) {
 				var ch c10Change
 				switch cur.flag {
 				case 'n':
-					if c.Rnd.Intn(6) == 0 {
+					if oddCase && c.Rnd.Intn(3) == 0 {
+						// first registration with a user-supplied isCandidate string: profile and deposit votes are set
+						ch = c10Change{a, 'o', voteVals[1+c.Rnd.Intn(len(voteVals)-1)], true}
+						c.Count("chg:register-odd-flag")
+					} else if c.Rnd.Intn(6) == 0 {
 						ch = c10Change{a, 'n', 0, false}
 						c.Count("chg:touch-noncandidate")
 					} else {
@@ -535,6 +605,15 @@ func c10Case(c *Ctx, caseNo int) {
 				case 'u':
 					ch = c10Change{a, 'u', 0, false}
 					c.Count("chg:touch-unregistered")
+				case 'o':
+					// it can be voted for (CallVoteTx only refuses "false" and ""), it cannot un-register
+					if v := voteVals[1+c.Rnd.Intn(len(voteVals)-1)]; v != cur.votes && c.Rnd.Intn(2) == 0 {
+						ch = c10Change{a, 'o', v, true}
+						c.Count("chg:votes-of-odd-flag-account")
+					} else {
+						ch = c10Change{a, 'o', cur.votes, false}
+						c.Count("chg:touch-odd-flag-account")
+					}
 				}
 				if malformed && c.Rnd.Intn(3) == 0 {
 					// outside what the chain can produce: re-registration, unlogged vote change, log without change
@@ -575,6 +654,11 @@ func c10Case(c *Ctx, caseNo int) {
 			out1 := s1.apply(id, pid, chs, extra)
 			op(line, out2)
 			nb := &c10Live{id: id, pid: pid, height: p.height + 1, view: view, tainted: p.tainted}
+			for _, ch := range chs {
+				if ch.flag != 'n' {
+					nb.changesWithProfile = append(nb.changesWithProfile, ch.addr)
+				}
+			}
 			live[id] = nb
 			if pid != ids[len(ids)-1] {
 				c.Count("blk:fork")
@@ -613,22 +697,43 @@ func c10Case(c *Ctx, caseNo int) {
 			got := c10FromStore(s2.db.GetCandidatesTop(s2.blocks[id].Hash()))
 			ref := c10FromStore(s1.db.GetCandidatesTop(s1.blocks[id].Hash()))
 			_ = out1
-			hasUnreg := false
+			hasOdd := false
+			for _, f := range flags {
+				if f == 'o' {
+					hasOdd = true
+				}
+			}
+			// root cause of whatever diverges on this lineage
+			sfx := ""
+			if hasOdd {
+				sfx = "/odd-candidate-flag"
+				c.Count("oracle:lineage-with-odd-flag(spec comparison skipped, restart comparison armed)")
+			} else if crashed {
+				sfx = "/crash-context-not-flushed"
+			}
+			hasUnreg, unregVotes := false, false
 			for _, g := range got {
-				if flags[g.addr] != 'y' {
+				if flags[g.addr] != 'y' && flags[g.addr] != 'o' {
 					hasUnreg = true
+					if g.votes != 0 {
+						unregVotes = true
+					}
 				}
 			}
 			ctx := fmt.Sprintf("case %d (max %d) block %d on %d: top=%s, full sort of the registered candidates of its view=%s, never-restarted store=%s", caseNo, max, id, pid, c10ShowCands(got), c10ShowCands(want), c10ShowCands(ref))
 			if hasUnreg {
-				fail("c10/top-contains-unregistered", ctx)
+				if unregVotes && crashed {
+					fail("c10/unregistered-returns-with-votes/crash-context-not-flushed", ctx)
+				} else {
+					fail("c10/top-contains-unregistered", ctx)
+				}
 				nb.tainted = true
 			}
 			if !c10Equal(got, ref) {
-				fail("c10/restart-differs", ctx)
+				fail("c10/restart-differs"+sfx, ctx)
 				nb.tainted = true
 			}
-			if !hasUnreg && !c10Equal(got, want) && c10Equal(got, ref) {
+			if !hasOdd && !hasUnreg && !c10Equal(got, want) && c10Equal(got, ref) {
 				tie := false
 				for i := 0; i < len(got) && i < len(want); i++ {
 					if got[i] != want[i] {
@@ -674,6 +779,46 @@ func c10Case(c *Ctx, caseNo int) {
 				delete(live, x)
 			}
 			stable = id
+		case r < 87 && func() bool { // ---- crash inside the commit of a child of the stable block
+			for _, id := range ids {
+				if id != stable && live[id].pid == stable {
+					return true
+				}
+			}
+			return false
+		}():
+			var kids []int
+			for _, id := range ids {
+				if id != stable && live[id].pid == stable {
+					kids = append(kids, id)
+				}
+			}
+			id := kids[c.Rnd.Intn(len(kids))]
+			out2 := s2.stableCrash(id)
+			s1.setStable(id)
+			op(fmt.Sprintf("stablecrash %d", id), out2)
+			c.Count("op:stablecrash(pointer moved, candidate list not flushed, restart)")
+			for _, x := range ids {
+				if x != id {
+					dead = append(dead, x)
+					delete(live, x)
+				}
+			}
+			stable = id
+			reopened = true
+			if len(live[id].changesWithProfile) > 0 {
+				crashed = true
+				c.Count("op:stablecrash-loses-candidate-list-entries")
+			}
+			lb := live[stable]
+			if !malformed && !lb.tainted {
+				want1 := c10FromStore(s1.db.GetCandidatesTop(s1.blocks[stable].Hash()))
+				got := c10FromStore(s2.db.GetCandidatesTop(s2.blocks[stable].Hash()))
+				if !c10Equal(got, want1) {
+					fail("c10/restart-differs/crash-context-not-flushed", fmt.Sprintf("case %d: top of the stable block %d after the crash restart %s, on the node that did not crash %s", caseNo, stable, c10ShowCands(got), c10ShowCands(want1)))
+					lb.tainted = true
+				}
+			}
 		case r < 90: // ---- restart
 			drained := c.Rnd.Intn(4) != 0 // 1 in 4 restarts happens with writes still queued
 			s2.reopen(drained)
@@ -695,7 +840,16 @@ func c10Case(c *Ctx, caseNo int) {
 				want1 := c10FromStore(s1.db.GetCandidatesTop(s1.blocks[stable].Hash()))
 				got := c10FromStore(s2.db.GetCandidatesTop(s2.blocks[stable].Hash()))
 				if !c10Equal(got, want1) {
-					fail("c10/restart-differs", fmt.Sprintf("case %d: top of the stable block %d after re-open %s, before %s", caseNo, stable, c10ShowCands(got), c10ShowCands(want1)))
+					sfx := ""
+					for _, acc := range lb.view {
+						if acc.flag == 'o' {
+							sfx = "/odd-candidate-flag"
+						}
+					}
+					if sfx == "" && crashed {
+						sfx = "/crash-context-not-flushed"
+					}
+					fail("c10/restart-differs"+sfx, fmt.Sprintf("case %d: top of the stable block %d after re-open %s, before %s", caseNo, stable, c10ShowCands(got), c10ShowCands(want1)))
 					lb.tainted = true
 				}
 			}
@@ -765,6 +919,17 @@ func c10ClassifyBranch(c *Ctx, p *c10Live, chs []c10Change, max int, s *c10Store
 }
 
 func c10EnginePart(c *Ctx) {
+	prod := store.VerifMaxCandidateCount()
+	c10OddFlagScenario(c)
+	c10LatentAfterScan(c)
+	nRand := 6
+	if c.Tier == "thorough" {
+		nRand = 40
+	}
+	for i := 0; i < nRand; i++ {
+		c10EngineRandomRun(c, i)
+	}
+	store.VerifSetMaxCandidateCount(prod)
 	for _, variant := range []string{"quiet", "transfer", "unregister-zero"} {
 		r := c10EngineScenario(variant)
 		c.Count("engine:" + variant)
@@ -783,4 +948,19 @@ func c10EnginePart(c *Ctx) {
 			c.Fail("c10/top-contains-unregistered", "engine, "+detail+"; "+r.UnregisteredDeputy, replay)
 		}
 	}
+}
+
+// c10LatentAfterScan documents a fifth, unreachable candidate predicate: ChainDatabase.AfterScan ->
+// commitCandidates -> isCandidate uses strconv.ParseBool and panics on any other string.  AfterScan has no
+// caller in /repo (the WAL replay goes through BeansDB.After), so this is counted, not reported.
+func c10LatentAfterScan(c *Ctx) {
+	s := c10NewStore()
+	defer s.close()
+	acc := c10AcctData(c10Change{addr: 2, flag: 'o', votes: 30})
+	buf, err := rlp.EncodeToBytes(acc)
+	if err != nil {
+		return
+	}
+	r := Safe(func() string { return fmt.Sprint(s.db.AfterScan(leveldb.ItemFlagAct, acc.Address.Bytes(), buf)) })
+	c.Count("latent:AfterScan(account with isCandidate=yes) => " + r + " (AfterScan has no caller in /repo)")
 }
